@@ -8,6 +8,7 @@ inbound QoS 2 queue is a well-formed FIFO (identifiers distinct, states
 Also: which events change which session's inbound QoS 2 queue (`step_pub2in`).
 -/
 import Mqtt.Proofs.BrokerQos
+import Mqtt.Proofs.BrokerConnect
 
 namespace Mqtt.Proofs.BrokerQos
 open Mqtt.Iface.Broker Mqtt.Model.Broker
@@ -527,7 +528,9 @@ theorem first_q {b : B} (h : BInv b) (c : Nat) (f : First) (a : Bool) (r : Nat) 
 
 theorem step_inv {b : B} (h : BInv b) (ev : Ev) : BInv (step b ev).1 := by
   cases ev with
-  | first c f a => exact first_inv h c f a
+  | first c f a =>
+    exact Mqtt.Proofs.Connect.connect_state BInv (fun b c h => h.same (stop_same b c))
+      (fun b c f a h => first_inv h c f a) b c f a h
   | packet c p => exact packet_inv h c p
   | close c => exact h.same (stop_same b c)
   | srvPub p => exact h.same (onPublish_frame b _).1.same
